@@ -206,6 +206,66 @@ for _c in REGISTRY["C15"]:
         _c.replay_with = None
 
 
+class _PoolGhost:
+    """multiprocessing.Pool under its documented contract: map(f, items) = [f(copy_k(item_k)) for k], results in the order of the
+    items, each item pickled to a worker on its own (ASSUMED: the copies are independent of one another and of the parent's
+    objects -- which is exactly what the pooled-vs-sequential clause depends on; decided in the bounded layer on real processes)"""
+    vc_attrs = ("map",)
+
+    def __init__(self):
+        self.maps = []
+
+    def _map(self, I, f, items):
+        out = []
+        for it in list(items):
+            n_, ch = it
+            cp = _ChainGhost(ch.k, copy_of=ch)
+            out.append(I.call(f, [(n_, cp)], {}))
+        self.maps.append((f, list(items), out))
+        return out
+
+    @property
+    def map(self):
+        g = self
+
+        def m(I, f, items):
+            return g._map(I, f, items)
+        m.wants_interp = True
+        return m
+
+
+class _ChainGhost:
+    vc_attrs = ("advance",)
+
+    def __init__(self, k, copy_of=None):
+        self.k, self.copy_of, self.advanced = k, copy_of, []
+
+    def advance(self, n):
+        self.advanced.append(n)
+
+
+@contract("C15", "pool_advance", native=False, replay_with="pool_native")
+def pool_advance(vc):
+    """ChainPool.advance(n): every chain of the pool is handed to the pool exactly once, each copy is advanced by exactly n (through
+    the chain's own advance, whose contract is advance_count), and the pool's chains become the advanced copies in the same order"""
+    size = vc.choice("pool_size", [1, 2, 3, 4])
+    n = vc.int("n", lo=0)
+    chains = [_ChainGhost(k) for k in range(size)]
+    pool = _PoolGhost()
+    cp = vc.obj("inference.mcmc.parallel", "ChainPool", chains=list(chains), pool_size=size, pool=pool)
+    vc.call(cp, "advance", n)
+    out = vc.attr(cp, "chains")
+    vc.ensures("one_map_over_all_chains", len(pool.maps) == 1 and len(out) == size)
+    ok = len(out) == size
+    for k in range(min(size, len(out))):
+        c = out[k]
+        ok = ok and isinstance(c, _ChainGhost) and c.copy_of is chains[k] and len(c.advanced) == 1
+        if ok:
+            vc.ensures("copy_k_advanced_by_exactly_n", c.advanced[0] == n)
+    vc.ensures("pool_holds_the_advanced_copies_in_order", bool(ok))
+    vc.ensures("originals_not_advanced_in_the_parent", all(not c.advanced for c in chains))
+
+
 @bounded("C15", "pool_native", native_runs=10)
 def pool_native(vc):
     """ChainPool.advance(n) on real worker processes against the same chains advanced one after another.  The chains are built
